@@ -204,7 +204,8 @@ func decodeNumericShort(raw []byte, header uint16) interface{} {
 	}
 	weight := int(header & 0x003F)
 	if header&0x0040 != 0 {
-		weight = -weight - 1
+		// 7-bit two's complement: sign-extend (NUMERIC_SHORT_WEIGHT_SIGN_MASK)
+		weight -= 64
 	}
 
 	ndigits := (len(raw) - 2) / 2
